@@ -107,12 +107,14 @@ class Base(torch.utils.data.Dataset):
 
 
 class Tag:
+    prefix = "T"
+
     def __init__(self):
         self.calls = 0
 
     def __call__(self, sample):
         self.calls += 1
-        return ("T", sample)
+        return (self.prefix, sample)
 
 
 def _identity(batch):
@@ -166,7 +168,7 @@ def check(spec):
             v = build_payload(spec["payloads"][i])
             if spec.get("base_transform", False):
                 v = ("B", v)
-            return ("T", v) if tag else v
+            return (tag.prefix, v) if tag else v
 
         def loads():
             return list(counter[:])
@@ -177,10 +179,12 @@ def check(spec):
             raise Violation("attribute-not-delegated", "")
         # optionally a deep copy of the cached dataset is made before any access and used side by side with the original
         twin = twin_cached = None
+        twin_tagged = False
         if spec.get("twin"):
             import copy as _copy
             twin = _copy.deepcopy(sd)
             twin_cached = set()
+            twin_tagged = tag is not None
             if not isinstance(twin, type(sd)) or twin.dataset is base or not twin.dataset.__dict__.get("twin"):
                 raise Violation("deepcopy-of-cached-dataset-is-not-an-independent-cached-dataset", type(twin).__name__)
         cached = set()
@@ -256,6 +260,30 @@ def check(spec):
                     if tag.calls != accesses:
                         raise Violation("transform-not-applied-on-every-access", f"{tag.calls} transform calls for {accesses} accesses")
                 flags.add("iterate")
+            elif k == "retransform":
+                # the post-cache transform is exchanged / removed / attached after construction (public attribute): what is set when a sample
+                # is requested is what is applied to it
+                new = [None, "T", "U"][op[1] % 3]
+                if new is None:
+                    sd.transform = tag = None
+                else:
+                    tag = Tag()
+                    tag.prefix = new
+                    sd.transform = tag
+                accesses = 0
+                if preader is not None:
+                    # a reader forked earlier holds the old configuration: it is retired, the next request forks a new one
+                    try:
+                        preader[1].send(None)
+                    except Exception:
+                        pass
+                    preader[0].join(5)
+                    if preader[0].is_alive():
+                        preader[0].kill()
+                        preader[0].join(5)
+                    preader[1].close()
+                    preader = None
+                flags.add("retransform")
             elif k in ("tget", "tclear"):
                 if twin is None:
                     continue
@@ -270,7 +298,7 @@ def check(spec):
                     v = ("twin", build_payload(spec["payloads"][i]))
                     if spec.get("base_transform", False):
                         v = ("B", v)
-                    if tag:
+                    if twin_tagged:
                         v = ("T", v)
                     if not treg.out_equal(got, v):
                         raise Violation("deep-copy-of-cached-dataset-differs-from-the-dataset-it-wraps", f"index {i}: {got!r} vs {v!r}"[:300])
@@ -429,7 +457,7 @@ def check(spec):
 
 @st.composite
 def op(draw, tier):
-    k = draw(st.sampled_from(["get", "get", "get", "many", "clear", "oob", "iterate", "copy", "pread", "loader", "tget", "tget", "tclear"] + (["readers"] if tier == "thorough" else ["readers"] * 0)))
+    k = draw(st.sampled_from(["get", "get", "get", "many", "clear", "oob", "iterate", "copy", "pread", "loader", "tget", "tget", "tclear", "retransform"] + (["readers"] if tier == "thorough" else ["readers"] * 0)))
     if k == "get":
         return ["get", draw(st.integers(0, 30)), None, draw(st.sampled_from([0, 0, 1, 2]))]
     if k == "many":
@@ -438,6 +466,8 @@ def op(draw, tier):
         return ["clear"]
     if k == "oob":
         return ["oob", draw(st.integers(0, 5))]
+    if k == "retransform":
+        return ["retransform", draw(st.integers(0, 8))]
     if k == "tget":
         return ["tget", draw(st.integers(0, 30))]
     if k == "tclear":
